@@ -177,6 +177,23 @@ var objOps = []objOp{
 		sort.Ints(idxs)
 		return fmt.Sprint(s.NumPoints(), s.NumSegments(), s.Convex(), s.Clockwise(), s.Empty(), s.Valid(), rs(s.Rect()), idxs, s.Index() != nil)
 	}},
+	{"Move", func(a, b geojson.Object) string {
+		// Move returns a translated copy and must leave its receiver alone
+		c := b.Center()
+		switch v := baseGeometry(a).(type) {
+		case *geometry.Line:
+			mv := v.Move(3, -2)
+			return rs(mv.Rect()) + bs(mv.IntersectsPoint(geometry.Point{X: c.X + 3, Y: c.Y - 2})) + bs(mv.IntersectsRect(b.Rect().Move(3, -2)))
+		case *geometry.Poly:
+			mv := v.Move(3, -2)
+			return rs(mv.Rect()) + bs(mv.ContainsPoint(geometry.Point{X: c.X + 3, Y: c.Y - 2})) + bs(mv.IntersectsRect(b.Rect().Move(3, -2)))
+		case geometry.Rect:
+			return rs(v.Move(3, -2))
+		case geometry.Point:
+			return rs(v.Move(3, -2).Rect())
+		}
+		return "-"
+	}},
 	{"Circle", func(a, b geojson.Object) string {
 		c, ok := a.(*geojson.Circle)
 		if !ok {
